@@ -178,7 +178,54 @@ fn suite_reduce(out: &mut Out, tier: &str, rng: &mut Rng) {
 }
 
 // ------------------------------------------------------------------ histories (C04, C06)
+fn suite_limits(out: &mut Out) {
+    // limits at the far end of usize behave like any limit that is never reached
+    let terms = [
+        app(abs(Var(1)), abs(Var(1))),
+        app(app(abs(abs(app(Var(2), Var(1)))), abs(Var(1))), app(abs(Var(1)), Var(3))),
+        app(abs(app(Var(1), Var(1))), abs(app(abs(Var(1)), Var(1)))),
+        3usize.into_church(),
+    ];
+    for t in &terms {
+        for (o, oname) in ORDERS.iter() {
+            let mut base = t.clone();
+            begin(format!("biglimit {} {}", oname, ser(t)));
+            let c0 = match guarded(|| base.reduce(*o, 0)) { Ok(c) => c, Err(_) => continue };
+            for lim in [usize::MAX, usize::MAX - 1, 1usize << 63, (1usize << 63) - 1, (1usize << 63) + 1, 1usize << 32, (1usize << 32) + 1, 1usize << 31] {
+                let mut u = t.clone();
+                let r = guarded(|| u.reduce(*o, lim));
+                let ok = matches!(r, Ok(c) if c == c0) && u == base;
+                out.line(format!("biglimit\t{}\t{}\t{}\t{}\t{}", oname, lim, ser(t), c0, ok));
+            }
+        }
+    }
+    // a run of 2^17 contractions: the count of one unlimited call equals the number of redexes and the sum of chunked calls
+    let mut tree = app(abs(Var(1)), Var(2));
+    for _ in 0..17 {
+        tree = app(tree.clone(), tree);
+    }
+    for (o, oname) in ORDERS.iter() {
+        if !matches!(*oname, "NOR" | "HNO" | "APP" | "HAP" | "CBV") {
+            continue;
+        }
+        begin(format!("longrun {}", oname));
+        let mut a = tree.clone();
+        let c0 = guarded(|| a.reduce(*o, 0)).unwrap_or(usize::MAX);
+        let mut b = tree.clone();
+        let mut sum = 0usize;
+        loop {
+            let c = guarded(|| b.reduce(*o, 50_000)).unwrap_or(0);
+            sum += c;
+            if c < 50_000 {
+                break;
+            }
+        }
+        out.line(format!("longrun\t{}\t{}\t{}\t{}\t{}", oname, 1usize << 17, c0, sum, a == b));
+    }
+}
+
 fn suite_history(out: &mut Out, tier: &str, rng: &mut Rng) {
+    suite_limits(out);
     let n = if tier == "thorough" { 30000 } else { 3000 };
     let mut small = universe(tier, 5, 6, 2);
     small.retain(|t| size(t) >= 4);
@@ -469,6 +516,32 @@ fn suite_termops(out: &mut Out, tier: &str, rng: &mut Rng) {
         let b = if rng.chance(1, 2) { a.clone() } else { expand(rng, &a, 0) };
         out.line(format!("iso\t{}\t{}\t{}", ser(&a), ser(&b), a.is_isomorphic_to(&b)));
     }
+    // pairs that only differ in how their De Bruijn rendering would be split into indices (17 = "1" "1"? no: 0x11)
+    for _ in 0..(if tier == "thorough" { 3000 } else { 400 }) {
+        let b = 2 + rng.below(14) as usize;
+        let a = random_term(rng, b, 0, 40, false);
+        let shown = format!("{:?}", a);
+        if let Ok(u) = parse(&shown, DeBruijn) {
+            out.line(format!("iso\t{}\t{}\t{}", ser(&a), ser(&u), a.is_isomorphic_to(&u)));
+            out.line(format!("iso\t{}\t{}\t{}", ser(&u), ser(&a), u.is_isomorphic_to(&a)));
+        }
+    }
+    for (a, b) in [(Var(0x12), app(Var(1), Var(2))), (app(Var(0x21), Var(3)), app(app(Var(2), Var(1)), Var(3))), (abs(Var(0x1F)), abs(app(Var(1), Var(15))))] {
+        out.line(format!("iso\t{}\t{}\t{}", ser(&a), ser(&b), a.is_isomorphic_to(&b)));
+    }
+    suite_deep(out);
+    // app! evaluates its operands left to right (operator first), like the nested app calls it stands for
+    {
+        let stream = vec![Var(1), Var(2), Var(3), abs(Var(1)), Var(5)];
+        let mut it = stream.clone().into_iter();
+        let r3 = app!(it.next().unwrap(), it.next().unwrap(), it.next().unwrap());
+        let mut it = stream.clone().into_iter();
+        let r5 = app!(it.next().unwrap(), it.next().unwrap(), it.next().unwrap(), it.next().unwrap(), it.next().unwrap());
+        let e3 = app(app(Var(1), Var(2)), Var(3));
+        let e5 = app(app(app(app(Var(1), Var(2)), Var(3)), abs(Var(1))), Var(5));
+        out.line(format!("apporder\t3\t{}\t{}", ser(&e3), ser(&r3)));
+        out.line(format!("apporder\t5\t{}\t{}", ser(&e5), ser(&r5)));
+    }
     // constructors and macros
     let s3 = universe(tier, 3, 3, 2);
     for a in s3.iter().take(12) {
@@ -487,6 +560,49 @@ fn suite_termops(out: &mut Out, tier: &str, rng: &mut Rng) {
     }
 }
 
+
+fn suite_deep(out: &mut Out) {
+    // the iterative predicate / the consuming accessors stay usable on very deep terms with an ordinary (small) stack
+    {
+        let h = std::thread::Builder::new().stack_size(512 << 10).spawn(|| {
+            let mut res = Vec::new();
+            for n in [100_000usize, 400_000] {
+                let mut chain = Var(1);
+                for _ in 0..n {
+                    chain = abs(chain);
+                }
+                res.push(format!("deepsc\tabs-chain\t{}\t{}", n, chain.is_supercombinator()));
+                let mut open = Var(n + 1);
+                for _ in 0..n {
+                    open = abs(open);
+                }
+                res.push(format!("deepsc\tabs-chain-open\t{}\t{}", n, !open.is_supercombinator()));
+                std::mem::forget(chain);
+                std::mem::forget(open);
+                let mut spine = Var(7);
+                for k in 0..n {
+                    spine = app(spine, Var(1 + k % 3));
+                }
+                let mut peeled = 0usize;
+                while let App(_) = spine {
+                    spine = spine.lhs().unwrap();
+                    peeled += 1;
+                }
+                res.push(format!("deepsc\tlhs-spine\t{}\t{}", n, peeled == n && spine == Var(7)));
+            }
+            res
+        });
+        begin("deep terms on a 512 KiB stack: is_supercombinator, lhs".to_string());
+        match h.unwrap().join() {
+            Ok(lines) => {
+                for l in lines {
+                    out.line(l);
+                }
+            }
+            Err(_) => out.line("deepsc\tpanic\t0\tfalse".to_string()),
+        }
+    }
+}
 
 // ------------------------------------------------------------------ metamorphic checks (C01, C02, C08)
 // (a) UD is an inert constant: replacing it by a fresh free variable commutes with reduce / apply;
@@ -531,7 +647,7 @@ fn has_ud(t: &Term) -> bool {
     }
 }
 const K: usize = 40; // a level above every free level the generators produce
-const BS: [usize; 2] = [(1 << 32) - 1, (1 << 48) + 12345];
+const BS: [usize; 4] = [(1 << 32) - 1, 1 << 32, (1 << 32) + 1, (1 << 48) + 12345];
 fn suite_meta_reduce(out: &mut Out, tier: &str, rng: &mut Rng) {
     let mut terms = universe(tier, 5, 6, 3);
     terms.extend(randoms(rng, if tier == "thorough" { 8000 } else { 1500 }, 35, true));
@@ -821,12 +937,41 @@ fn suite_parse(out: &mut Out, tier: &str, rng: &mut Rng) {
         }
         parse_line(out, &s, rng.chance(1, 2));
     }
-    // deep nesting (native stack): reported, not claimed
-    for depth in [1000usize, 20000] {
+    // words a lexer might be tempted to treat specially
+    for w in ["lambda x.x", "lambda", "lambda a", "λa.lambda a", "lambdaa b", "aalambda aalambda e", "fn x.x", "fun x.x", "let x.x",
+              "undefined", "λundefined.undefined", "λx.undefined x", "λ x . x", "λx . x", "λx. λ y.x", "Lambda x.x", "LAMBDA x.x", "λλ.x", "λ.x"] {
+        parse_line(out, w, true);
+    }
+    for w in ["lambda 1", "λ 1", "λ1λ2", "λ1 λ2", "undefined", "0", "00", "λ0", "G", "1G", "λ10", "λA", "λa", "λ F f"] {
+        parse_line(out, w, false);
+    }
+    // deep nesting: redundant parentheses and right-nested groups far beyond any "reasonable" depth still parse
+    for depth in [1000usize, 1025, 1500, 3000, 20000] {
         let s = format!("{}1{}", "(".repeat(depth), ")".repeat(depth));
         begin(format!("parse-deep {}", depth));
         let r = guarded(|| parse(&s, DeBruijn));
-        out.line(format!("deep\t{}\t{}", depth, matches!(r, Ok(Ok(Var(1))))));
+        out.line(format!("deep\tdbr-parens\t{}\t{}", depth, matches!(r, Ok(Ok(Var(1))))));
+        let s = format!("{}a{}", "(".repeat(depth), ")".repeat(depth));
+        let r = guarded(|| parse(&s, Classic));
+        out.line(format!("deep\tcla-parens\t{}\t{}", depth, matches!(r, Ok(Ok(Var(1))))));
+        if depth <= 3000 {
+            // 1(2(1(2( ... ))))
+            let mut s = String::new();
+            let mut expect = Var(1);
+            for k in 0..depth {
+                s.push_str(if k % 2 == 0 { "1(" } else { "2(" });
+            }
+            s.push('1');
+            for _ in 0..depth {
+                s.push(')');
+            }
+            for k in (0..depth).rev() {
+                expect = app(Var(if k % 2 == 0 { 1 } else { 2 }), expect);
+            }
+            let r = guarded(|| parse(&s, DeBruijn));
+            out.line(format!("deep\tdbr-right-nested\t{}\t{}", depth, matches!(r, Ok(Ok(ref t)) if *t == expect)));
+            std::mem::forget(expect);
+        }
     }
 }
 
@@ -850,6 +995,15 @@ fn suite_print(out: &mut Out, tier: &str, rng: &mut Rng) {
     for i in [26usize, 27, 28, 676, 702, 703, 800, 18278, 18279] {
         terms.push(app(Var(i), abs(app(Var(1), Var(i + 1)))));
     }
+    // long runs of binders and deep operand nesting
+    for n in [255usize, 256, 257, 300, 1030] {
+        let mut t = app(Var(1), app(Var(n), Var(n + 2)));
+        for _ in 0..n {
+            t = abs(t);
+        }
+        terms.push(t);
+    }
+    terms.push(1030usize.into_church());
     for t in &terms {
         begin(format!("display {}", ser(t)));
         match guarded(|| format!("{}", t)) {
@@ -876,8 +1030,55 @@ fn suite_print(out: &mut Out, tier: &str, rng: &mut Rng) {
             out.line(format!("display-shift\t{}\t{}\t{}", bb, ser(t), r));
         }
     }
+    // names that collide with words, and names at the far end of usize (13 and 14 letters)
+    {
+        let idx = |name: &str| -> usize { name.bytes().fold(0usize, |acc, c| acc * 26 + (c - b'a' + 1) as usize) };
+        let shapes = [app(Var(1), Var(2)), abs(app(app(Var(2), Var(1)), abs(app(Var(3), Var(4))))), app(app(Var(1), abs(Var(1))), Var(1))];
+        let maps: Vec<(&str, Vec<usize>)> = vec![
+            ("lambda", vec![idx("lambda"), idx("a")]), ("aalambda", vec![idx("aalambda"), idx("e")]), ("fn", vec![idx("fn"), idx("lambda")]),
+            ("undefined", vec![idx("undefined"), idx("x")]), ("let-in", vec![idx("let"), idx("in")]),
+            ("2^61", vec![1usize << 61, (1 << 61) + 1]), ("2^62", vec![1usize << 62, (1 << 62) + 7]), ("2^63", vec![1usize << 63, (1 << 63) - 1]),
+            ("13-14 letters", vec![2580398988131886038, 2580398988131886039]), ("max", vec![usize::MAX - 8, usize::MAX - 9]),
+        ];
+        fn remap(t: &Term, m: &[usize], depth: usize) -> Term {
+            match t {
+                Var(i) if *i > depth => Var(m[(*i - depth - 1) % m.len()] + depth),
+                Var(i) => Var(*i),
+                Abs(b) => abs(remap(b, m, depth + 1)),
+                App(p) => app(remap(&p.0, m, depth), remap(&p.1, m, depth)),
+            }
+        }
+        for (label, m) in &maps {
+            for t in &shapes {
+                let big = remap(t, m, 0);
+                begin(format!("display-names {} {}", label, ser(t)));
+                let r = match guarded(|| format!("{}", big)) {
+                    Ok(s) => parse_result(guarded(|| parse(&s, Classic))),
+                    Err(p) => format!("panic {}", p.replace(['\t', '\n'], " ")),
+                };
+                out.line(format!("display-shift\t{}\t{}\t{}", label, ser(t), r));
+            }
+        }
+    }
     // Debug: indices 1..=15 for the round trip (others are printed too, format only)
     let mut dterms = universe(tier, 5, 6, 3);
+    for n in [255usize, 256, 257, 300, 1030] {
+        let mut t = app(Var(1), app(Var(15), Var(10)));
+        for _ in 0..n {
+            t = abs(t);
+        }
+        dterms.push(t.clone());
+        dterms.push(app(Var(3), app(t, Var(2))));
+    }
+    dterms.push(1030usize.into_church());
+    {
+        // F(λE(λF(...)))
+        let mut t = Var(1);
+        for k in 0..1200 {
+            t = app(Var(if k % 2 == 0 { 15 } else { 14 }), abs(t));
+        }
+        dterms.push(t);
+    }
     for _ in 0..(if thorough { 30000 } else { 4000 }) {
         // random terms using all 15 digits, nested operand applications, abstractions in operator position
         let b = 2 + rng.below(35) as usize;
@@ -941,6 +1142,7 @@ fn main() {
                 "history" => suite_history(&mut out, &tier, &mut rng),
                 "normalise" => suite_normalise(&mut out, &tier, &mut rng),
                 "termops" => suite_termops(&mut out, &tier, &mut rng),
+                "deep" => suite_deep(&mut out),
                 "parse" => suite_parse(&mut out, &tier, &mut rng),
                 "print" => suite_print(&mut out, &tier, &mut rng),
                 "meta-reduce" => suite_meta_reduce(&mut out, &tier, &mut rng),
